@@ -68,7 +68,7 @@ CHECKS = {
                  seq("HarnessC01Gen2L2", ["c01-gen-end"], ["thorough"], maxpaths=2000000, timeout="3000s"), seq("HarnessC01Gen3", ["c01-gen-end"], ["thorough"], maxpaths=3000000, timeout="3000s"), seq("HarnessC01T3", ["c01-end"], ["thorough"]), seq("HarnessC01T4", ["c01-end"], ["thorough"]),
                  seq("HarnessC01T2L3", ["c01-end"], ["thorough"]), seq("HarnessC01T7L3", ["c01-end"], ["thorough"])],
         "bounds": {"quick": "8 types (scalars/durations, skipped fields in every position, nested+pointer+embedded structs, slices/maps/arrays, user pointers incl. two leaves aliasing one variable in the defaults, text-unmarshalable value+pointer, deep nesting, pointer-bearing arrays in slices / struct map keys holding pointers / pointer to an all-nilable struct); 2 layers (1 for the two biggest types); slices len<=2, maps <=1 entry; all scalar values; generated family: all 19+361 types of 1-2 fields over {int8,string,[]int16,map,*int,struct,*struct,[2]uint8,dials:\"-\",chan,func,text-unmarshalable,*all-nilable struct,[][1]*struct,map[struct-with-pointer]int8,map of maps,text-unmarshalable with reference fields,unmanaged map,*chan}, 1 layer; T9 (shared inner maps, unmanaged reference fields), T10 (shadowing skipped field, text-unmarshalable with references); two-watcher precedence (C05Seq) and the all-nilable-pointee aliasing scenario",
-                   "thorough": "same corpus, 2 layers everywhere, 3 layers on the small types; generated family: all 6859 three-field types (1 layer), all 361 two-field types (2 layers)"},
+                   "thorough": "same corpus, 2 layers everywhere, 3 layers on the small types; generated family: all 1728 three-field types over the first 12 kinds (1 layer), all 361 two-field types over 19 kinds (2 layers)"},
         "outside": "other struct types; more layers; longer slices/maps; interface-typed fields; floats/complex are drawn from 2-3 concrete values",
         "assumptions": REFLECT_ASSUME,
     },
